@@ -1,4 +1,5 @@
 import Rivaas.Lemmas.BindAll
+import Rivaas.Lemmas.BindAllSound
 import Rivaas.Spec.BindAll
 import Rivaas.Spec.BindNestJSON
 import Rivaas.Props.C04
@@ -72,6 +73,79 @@ theorem bindAll_first_error_has_cause (P : Params) (hP : FloatSane P) (cfg : Cfg
   have := bind_meets_spec P hP cfg tag fs ivs src hw hg hs
   rw [hb] at this
   simpa [Spec.specOK, toObs] using this
+
+/-- an error the item-wise oracle admits at the top level is one of `Spec.causes` -/
+theorem lemma_itemsErr_causes (P : Params) (cfg : Cfg) (tag : Tag) (fs : List Fld) (init : Val) (src : Src) (e : Err)
+    (h : ItemsErr P cfg { src := src } 0 (Spec.itemsFs tag 0 fs) init e) :
+    (Spec.causes P cfg tag fs init src).contains e = true := by
+  simp only [Spec.causes, List.contains_iff_mem, List.mem_append, List.mem_flatMap, List.mem_map,
+    List.mem_filter, Spec.leavesOf, Spec.nodesOf, List.mem_filterMap, Spec.items]
+  rcases h with ⟨l, hl, c, hc, hh⟩ | ⟨n, hn, hd, he⟩
+  · left
+    refine ⟨l, ⟨.leaf l, hl, rfl⟩, c, ?_, hc.symm⟩
+    rw [lemma_keyed_top] at hh
+    rcases hh with h | ⟨h1, h2⟩
+    · exact Or.inl h
+    · right
+      simp only [h1, if_true, List.mem_cons, List.mem_nil_iff, or_false]
+      exact h2
+  · right
+    exact ⟨n, ⟨⟨.node n, hn, rfl⟩, by simpa using hd⟩, he.symm⟩
+
+/-- **A collecting bind meets the whole collecting oracle** - every type of the grammar, tag, option set, well-typed
+    destination and well-formed source: without an error the plain oracle holds on the value; otherwise every
+    reported error is one the statement allows (it names a field whose own value or limit causes it, with that
+    class), every reached, unambiguous leaf whose only admissible outcome is an error is named by a reported error,
+    and so is every nested struct at the first depth beyond the limit; never a panic. -/
+theorem bindAll_meets_spec (P : Params) (hP : FloatSane P) (cfg : Cfg) (tag : Tag) (fs : List Fld) (ivs : List Val)
+    (src : Src) (hw : wts fs ivs = true) (hg : Spec.inGrammarFs fs = true) (hs : Spec.srcOK src = true) :
+    Spec.specAll P cfg tag fs (.struct ivs) src (toObsAll (bindAll P cfg tag (.struct fs) (.struct ivs) src)) = true := by
+  have hsp := lemma_bindAtAll_spec P cfg tag hP cfg.maxDepth 0 (by omega) fs ivs { src := src } hw hg hs
+  cases hr : bindAtAll P cfg tag cfg.maxDepth fs (.struct ivs) { src := src } 0 with
+  | panic => rw [hr] at hsp; exact absurd hsp (by simp)
+  | done v es =>
+    rw [hr] at hsp
+    have hb : bindAll P cfg tag (.struct fs) (.struct ivs) src = .done v es := by simp only [bindAll, hr]
+    rw [hb]
+    cases es with
+    | nil => exact bindAll_clean_meets_spec P hP cfg tag fs ivs src hw hg hs v hb
+    | cons e0 es' =>
+      obtain ⟨h1, h2, h3⟩ := hsp
+      simp only [toObsAll, Spec.specAll, Bool.and_eq_true, List.all_eq_true, Bool.or_eq_true, Bool.not_eq_true',
+        List.any_eq_true, beq_iff_eq, bne_iff_ne, ne_eq, Spec.leavesOf, Spec.nodesOf, List.mem_filterMap, Spec.items]
+      refine ⟨⟨?_, ?_⟩, ?_⟩
+      · intro e he
+        exact lemma_itemsErr_causes P cfg tag fs _ src e (h1 e he)
+      · rintro l ⟨x, hx, hxl⟩
+        cases x with
+        | node n => simp at hxl
+        | frame f => simp at hxl
+        | leaf l0 =>
+          simp only [Option.some.injEq] at hxl
+          subst hxl
+          have := h2 l0 hx
+          rw [lemma_keyed_top] at this
+          rcases this with h | h | h | ⟨e, he, hn⟩
+          · exact Or.inl (Or.inl (Or.inl h))
+          · refine Or.inl (Or.inl (Or.inr ?_))
+            simp only [Spec.leafReached, decide_eq_false_iff_not]
+            omega
+          · refine Or.inl (Or.inr ?_)
+            cases hoks : (Spec.expect P cfg src (.struct ivs) l0).oks with
+            | nil => exact absurd hoks h
+            | cons _ _ => rfl
+          · exact Or.inr ⟨e, he, hn⟩
+      · rintro n ⟨x, hx, hxn⟩
+        cases x with
+        | leaf l => simp at hxn
+        | frame f => simp at hxn
+        | node n0 =>
+          simp only [Option.some.injEq] at hxn
+          subst hxn
+          by_cases hd : n0.depth = cfg.maxDepth + 1
+          · obtain ⟨e, he, hn⟩ := h3 n0 hx (by omega)
+            exact Or.inr ⟨e, he, hn⟩
+          · exact Or.inl hd
 
 end Rivaas.C04
 
